@@ -7,7 +7,15 @@ EXTENDS H264, TraceIO, SequencesExt
 CONSTANTS Mtus, Rich
 
 MtuSeq == SetToSeq(Mtus)
-U(t, nri, n, salt) == <<nri * 32 + t>> \o Pat(n - 1, salt)
+\* unit bodies: the pattern, with (by salt) an isolated zero in the second-to-last byte, an
+\* emulation-prevention sequence 00 00 03 in the middle, or single zeros - all legal inside a NAL unit
+Body(n, salt) ==
+  LET b == Pat(n, salt) IN
+  IF salt % 4 = 1 /\ n >= 3 THEN [b EXCEPT ![n - 1] = 0]
+  ELSE IF salt % 4 = 2 /\ n >= 6 THEN [b EXCEPT ![2] = 0, ![3] = 0, ![4] = 3]
+  ELSE IF salt % 4 = 3 /\ n >= 4 THEN [b EXCEPT ![1] = 0, ![3] = 0]
+  ELSE b
+U(t, nri, n, salt) == <<nri * 32 + t>> \o Body(n - 1, salt)
 SizesFor(m) == SetToSeq({ n \in {2, 3, m - 2, m - 1, m, m + 1, m + 2, 2 * m - 3, 2 * m - 2, 2 * m - 1, 2 * m, 3 * m} : n >= 2 })
 TypeSeq == <<1, 5, 6, 7, 8, 9, 12, 23>>
 \* S1: one call, one unit
